@@ -339,6 +339,72 @@ def rule_u1_pred(chk: Check, ci) -> None:
     chk.rules.pop("P2", None)
 
 
+def _token_rewrite(e: ast.AST) -> ast.AST | None:
+    """A sub-expression that drops or rewrites elements of a token collection:
+    a comprehension with a filter or a non-identity element, filter()/map(), or
+    a trimming / case-folding call."""
+    for x in walk(e):
+        if isinstance(x, (ast.ListComp, ast.SetComp, ast.GeneratorExp)):
+            g0 = x.generators[0]
+            if any(g_.ifs for g_ in x.generators) or not (isinstance(x.elt, ast.Name) and isinstance(g0.target, ast.Name) and x.elt.id == g0.target.id):
+                return x
+        elif isinstance(x, ast.Call):
+            d = dotted(x.func) or ""
+            if d in ("filter", "map"):
+                return x
+            if method_call(x) and method_call(x)[1] in ("strip", "lstrip", "rstrip", "lower", "upper", "casefold", "discard", "remove", "difference", "intersection"):
+                return x
+    return None
+
+
+def rule_u7(chk: Check) -> None:
+    """'If tokens are configured' every upload needs one of them.  A blank or
+    odd entry in the configured list can never be presented (the parser trims
+    the request's token) - it locks uploads, it does not open them.  Dropping
+    such entries on the way to the handler can empty the list, and an empty list
+    means 'no authentication'."""
+    chk.rule("U7", "the configured token list reaches the upload handler as written: no store to ServerConfig.titan_auth_tokens, no step of from_toml / get_upload_handler / FileUploadHandler.__init__ filters or rewrites its elements (a list emptied by filtering switches authentication off)")
+    cfg = chk.proj.cls("server.config:ServerConfig")
+    sites: list[tuple[object, ast.AST, ast.AST]] = []
+    for m in cfg.methods.values():
+        for st in walk(m.node):
+            if isinstance(st, (ast.Assign, ast.AnnAssign)) and st.value is not None:
+                tg = st.targets if isinstance(st, ast.Assign) else [st.target]
+                if any(dotted(t) == "self.titan_auth_tokens" for t in tg):
+                    sites.append((m, st.value, st))
+            elif isinstance(st, ast.Call):
+                if dotted(st.func) in ("cls", "ServerConfig") and kwarg(st, "titan_auth_tokens") is not None:
+                    sites.append((m, kwarg(st, "titan_auth_tokens"), st))
+                elif (dotted(st.func) or "").split(".")[-1] == "FileUploadHandler" and kwarg(st, "auth_tokens") is not None:
+                    sites.append((m, kwarg(st, "auth_tokens"), st))
+    h = chk.proj.cls(HANDLER)
+    init = h.methods.get("__init__")
+    if init is not None:
+        for st in walk(init.node):
+            if isinstance(st, (ast.Assign, ast.AnnAssign)) and st.value is not None and any(dotted(t) == "self.auth_tokens" for t in (st.targets if isinstance(st, ast.Assign) else [st.target])):
+                sites.append((init, st.value, st))
+    chk.require("U7", cfg.key, "steps that carry the token list (from_toml, get_upload_handler, handler constructor)", len(sites), 3, "the configured tokens no longer reach the upload handler: uploads are not authenticated")
+    for m, val, st in sites:
+        # follow single-assignment locals of the function
+        exprs, seen = [val], set()
+        while exprs:
+            e = exprs.pop()
+            for nm in [x for x in walk(e) if isinstance(x, ast.Name) and x.id not in seen and x.id not in m.params]:
+                seen.add(nm.id)
+                exprs += [s2.value for s2 in walk(m.node) if isinstance(s2, ast.Assign) and any(isinstance(t, ast.Name) and t.id == nm.id for t in s2.targets)]
+            bad = _token_rewrite(e)
+            if bad is not None:
+                chk.finding(
+                    "U7", m.key, f"token-list-rewritten:{norm(bad)[:50]}",
+                    f"`{norm(bad)[:80]}` drops or rewrites entries of the configured token list on its way to the upload handler: a list that only holds entries nobody can present (blank strings) becomes empty, an empty list means 'no authentication', and every upload is then accepted without a token",
+                    m.loc(st),
+                )
+                chk.ob("U7", f"{m.key}: `{norm(st)[:50]}` passes the tokens through", False)
+                break
+        else:
+            chk.ob("U7", f"{m.key}: `{norm(st)[:50]}` passes the tokens through", True)
+
+
 def run(chk: Check) -> None:
     ci = chk.proj.cls(HANDLER)
     rule_u1(chk, ci)
@@ -346,6 +412,7 @@ def run(chk: Check) -> None:
     rule_u2(chk, ci)
     rule_u3(chk, ci)
     rule_u4_u5(chk, ci)
+    rule_u7(chk)
     # U5 (values): the configured size limit reaches the handler as written (0 = frozen capsule)
     from .c10 import config_value_fidelity
 
